@@ -192,7 +192,7 @@ def check_stamp(ctx):
     R.guard(ctx, inst, body, st, v_ge, "token stamped only for format version >= SEQ_TOKEN_MIN_VERSION")
     v_lt = version_edges(ctx, inst, body, want_v3=False, floor=1)
     push = ctx.sites(body, R.call("Vec::push").filter(
-        lambda b, n: "batch_writes" in {b.local_name(l) for (k, l) in A.origins(b, R.recv_expr(b, n)) if k == "local"}, "onto batch_writes"), inst, exact=1)
+        lambda b, n: "batch_writes" in names_of(b, R.recv_expr(b, n)), "onto batch_writes"), inst, exact=1)
     R.dom(ctx, inst, body, st, push, "[version >= 3] token stamped before the buffer is queued for writing",
           blocked_edges=frozenset(v_lt), a_desc="stamp_seq_token")
     if st and push:
@@ -212,7 +212,15 @@ def check_stamp(ctx):
         tk = ctx.sites(body2, R.call("seq_token::record_seq_token"), inst, exact=1)
 
 
+def check_losers(ctx):
+    # clause (c): generations that lost the newest-timestamp-wins rule are queued for the journalled post-scan
+    # retirement (otherwise a stale but token-valid record stays on disk and can resurface after the winner is deleted)
+    from rules import C04
+    C04.check_winner(ctx, "C03.recover/losers")
+
+
 def check(ctx):
+    check_losers(ctx)
     check_layer(ctx)
     check_bracket(ctx)
     check_recover(ctx)
